@@ -105,7 +105,8 @@ package values
 //@   loop 1 invariant protocol: trace == (old(trace) ++ seq(evClear(into))) ++ trimSetEvs(into, values, $k)
 
 // SetFromEnv: the variables are tried in listing order; an unset/empty variable produces no call on the value;
-// single-valued: exactly one Set with the variable's content, byte for byte; true iff that Set succeeded.
+// single-valued: exactly one Set with the variable's content, byte for byte; true iff that Set succeeded;
+// multi-valued: the value that is kept was cleared and then given the comma-separated parts, trimmed, in order.
 //@ func SetFromEnv
 //@   requires recv: into != nil && (builtinValue(into) ==> ival(into) != 0)
 //@   let vars = strings_Fields(envVars)
@@ -114,6 +115,9 @@ package values
 //@       (exists j int :: 0 <= j && j < len(vars) && env(vars[j]) != "" && trace[len(trace)-1] == evSet(into, env(vars[j]), true))
 //@   ensures not-found-single: !result && !multi ==> (forall i int :: len(old(trace)) <= i && i < len(trace) && trace[i].kind == 5 ==> trace[i].b == 0)
 //@   ensures empty-list: len(envVars) == 0 ==> !result && trace == old(trace)
+//@   ensures found-multi: result && multi ==> (exists j int :: 0 <= j && j < len(vars) && env(vars[j]) != "" &&
+//@       trace == ((startTrace(1) ++ seq(evEnv(vars[j]))) ++ seq(evClear(into))) ++
+//@                trimSetEvs(into, strings_Split(env(vars[j]), ","), len(strings_Split(env(vars[j]), ","))))
 //@   loop 1 invariant failed-so-far: !multi ==> (forall i int :: len(old(trace)) <= i && i < len(trace) && trace[i].kind == 5 ==> trace[i].b == 0)
 //@   loop 1 invariant grows: len(trace) >= len(old(trace))
 //@   loop 1 step single: !multi ==> trace == (startTrace(1) ++ seq(evEnv(ev))) ++ (env(ev) == "" ? noEvents() : seq(evSet(into, env(ev), false)))
